@@ -55,7 +55,7 @@ type Call struct {
 
 type Case struct {
 	Callers  [][]Call       `json:"callers"`
-	Outcomes []bool         `json:"outcomes"` // per callable invocation index (global order): true = fail
+	Outcomes []bool         `json:"outcomes"`       // per callable invocation index (global order): true = fail
 	Vals     []int          `json:"vals,omitempty"` // per invocation index: kind of value a succeeding callable returns (0 = fresh list)
 	Yields   int            `json:"yields"`
 	Pol      cosched.Policy `json:"pol"`
